@@ -428,7 +428,7 @@ def jsonable(x):
   return repr(x)
 
 
-def stale_call(f, *args):
+def stale_call(f, *args, near=False):
   """f(*args), but evaluated the way iterative callers do it: every ndarray argument lives in a buffer that held OTHER values during an
   earlier call of f and was then overwritten in place.  A memo keyed on the caller's array object (or on a stale copy of anything that
   is not the value) returns the earlier answer here; a correct implementation cannot tell the difference.  Exceptions of the decoy
@@ -437,7 +437,8 @@ def stale_call(f, *args):
   bufs = [np.array(a, dtype=float) if isinstance(a, np.ndarray) else a for a in args]
   for b, a in zip(bufs, args):
     if isinstance(b, np.ndarray):
-      b[...] = np.roll(a.reshape(-1), 1).reshape(a.shape) * 0.75 + 0.125
+      # far decoy: other values altogether; near decoy: within 1e-6 relative (a tolerance-based cache key must not mistake it)
+      b[...] = (a * (1 + 2.0 ** -20) + 2.0 ** -30) if near else (np.roll(a.reshape(-1), 1).reshape(a.shape) * 0.75 + 0.125)
   try:
     f(*bufs)
   except Exception:
@@ -449,8 +450,10 @@ def stale_call(f, *args):
 
 
 def maybe_stale(case, f, *args):
-  """stale_call for half of the cases (decided by the case content), a plain call for the others."""
-  return stale_call(f, *args) if int(case_hash(case), 16) % 2 else f(*args)
+  """A plain call for a third of the cases (decided by the case content), stale_call with a far decoy for a third, with a near decoy
+  (every entry within 1e-6 relative of the real one) for the rest."""
+  h = int(case_hash(case), 16) % 3
+  return f(*args) if h == 0 else stale_call(f, *args, near=(h == 2))
 
 
 def case_hash(case):
